@@ -17,10 +17,13 @@
 package main
 
 import (
+	"context"
+	"database/sql"
 	"errors"
 	"fmt"
 	"os"
 	"regexp"
+	"runtime"
 	"sort"
 	"strings"
 	"sync"
@@ -84,6 +87,11 @@ type obs struct {
 	fired     []string // labels of the faults that fired, in order
 	firedDrv  int
 	firedHook int
+	// firedCancel: the operation's context was cancelled at that many points
+	firedCancel int
+	// notJudged: a cancellation was not noticed by database/sql within the
+	// bounded wait; the execution is counted, not judged.
+	notJudged bool
 	points    []point // every fault point met, in order
 	nDrv      int
 	nHook     int
@@ -107,6 +115,22 @@ func (o *obs) keys() []string {
 		out[i] = p.key
 	}
 	return out
+}
+
+// waitUntil polls cond a bounded number of times (about 20s of sleeping at
+// most; normally it returns after a few iterations).
+func waitUntil(cond func() bool) bool {
+	for i := 0; i < 100000; i++ {
+		if cond() {
+			return true
+		}
+		if i < 100 {
+			runtime.Gosched()
+		} else {
+			time.Sleep(200 * time.Microsecond)
+		}
+	}
+	return cond()
 }
 
 // watchdog only separates "never returns" from "returns": it is far above any
@@ -135,6 +159,11 @@ func execute(op opcat.Op, dialect string, x *mc.Exec, upfront []string) *obs {
 
 func executeRaw(op opcat.Op, dialect string, x *mc.Exec, upfront []string) *obs {
 	o := &obs{}
+	// configuration = dialector[|pre=<prelude>]
+	preName := ""
+	if i := strings.Index(dialect, "|pre="); i >= 0 {
+		dialect, preName = dialect[:i], dialect[i+len("|pre="):]
+	}
 	var cfg *gorm.Config
 	if dialect == "returning+preparestmt" {
 		cfg = &gorm.Config{PrepareStmt: true}
@@ -148,14 +177,42 @@ func executeRaw(op opcat.Op, dialect string, x *mc.Exec, upfront []string) *obs 
 	}()
 	ctl := opcat.Setup(env)
 	ctl.Audit = true
+	if preName != "" {
+		// a harmless use of the shared handle before the operation (not recorded,
+		// no faults); hook counter and clock are reset so that the operation's
+		// run is comparable with the one without prelude
+		pre, ok := preludeByName(preName)
+		if !ok {
+			o.panicMsg = "unknown prelude " + preName
+			return o
+		}
+		func() {
+			defer func() {
+				if r := recover(); r != nil {
+					o.panicMsg = "prelude: " + fmt.Sprint(r)
+				}
+			}()
+			env.Quiet(func() { pre.run(env.DB) })
+		}()
+		if o.panicMsg != "" {
+			return o
+		}
+		ctl.Reset()
+		atomic.StoreInt64(env.Clock, 0)
+	}
 	o.pre = env.Dump(opcat.Tables...)
+	// the operation is started from a handle bound to a cancellable context
+	ctx, cancel := context.WithCancel(context.Background())
+	defer cancel()
 
-	var chosen map[string]bool
+	// choice at every fault point: 0 = nothing, 1 = the call fails / the hook
+	// returns an error, 2 = the operation's context is cancelled at this point
+	var chosen map[string]int
 	if upfront != nil {
-		chosen = map[string]bool{}
+		chosen = map[string]int{}
 		for _, k := range upfront {
-			if x.Choose(2, "fault "+k, 1) == 1 {
-				chosen[k] = true
+			if c := x.Choose(3, "fault "+k, 1); c != 0 {
+				chosen[k] = c
 			}
 		}
 	}
@@ -164,13 +221,13 @@ func executeRaw(op opcat.Op, dialect string, x *mc.Exec, upfront []string) *obs 
 		occ[base]++
 		return fmt.Sprintf("%s #%d", base, occ[base])
 	}
-	decide := func(kind, base, label string) bool {
+	decide := func(kind, base, label string) int {
 		key := keyOf(base)
 		o.points = append(o.points, point{kind: kind, key: key})
 		if upfront != nil {
 			return chosen[key]
 		}
-		return x.Choose(2, label, 1) == 1
+		return x.Choose(3, label, 1)
 	}
 	env.Rec.Fault = func(ev *recsqlite.Event) error {
 		if !faultable(ev) {
@@ -179,20 +236,41 @@ func executeRaw(op opcat.Op, dialect string, x *mc.Exec, upfront []string) *obs 
 		i := o.nDrv
 		o.nDrv++
 		label := fmt.Sprintf("drv#%d %s %s", i, ev.Kind, short(ev.SQL))
-		if decide(ev.Kind, ev.Kind+" "+normSQL(ev.SQL), label) {
+		switch decide(ev.Kind, ev.Kind+" "+normSQL(ev.SQL), label) {
+		case 1:
 			o.fired = append(o.fired, label)
 			o.firedDrv++
 			return recsqlite.ErrInjected
+		case 2:
+			// the context ends while this call is on its way: the driver notices
+			// it and refuses the call (deterministic stand-in for an interrupted
+			// statement); database/sql rolls the transaction back on its own.
+			o.fired = append(o.fired, "CANCEL@"+label)
+			o.firedCancel++
+			cancel()
+			return context.Canceled
 		}
 		return nil
 	}
 	ctl.Fail = func(idx int, name string) error {
 		o.nHook++
 		label := fmt.Sprintf("hook#%d %s", idx, name)
-		if decide("hook", "hook "+name, label) {
+		switch decide("hook", "hook "+name, label) {
+		case 1:
 			o.fired = append(o.fired, label)
 			o.firedHook++
 			return opcat.ErrHook
+		case 2:
+			// the context ends while the hook runs (no driver call in flight); the
+			// hook itself succeeds. Cancellation is asynchronous: wait (bounded,
+			// counted in iterations) until database/sql has rolled the open
+			// transaction back; if that does not happen the execution is not judged.
+			o.fired = append(o.fired, "CANCEL@"+label)
+			o.firedCancel++
+			cancel()
+			if !waitUntil(func() bool { return atomic.LoadInt32(&env.Rec.OpenTx) == 0 }) {
+				o.notJudged = true
+			}
 		}
 		return nil
 	}
@@ -203,8 +281,13 @@ func executeRaw(op opcat.Op, dialect string, x *mc.Exec, upfront []string) *obs 
 				o.panicMsg = fmt.Sprint(r)
 			}
 		}()
-		o.err = op.Run(env.DB)
+		o.err = op.Run(env.DB.WithContext(ctx))
 	}()
+	if o.firedCancel > 0 && o.panicMsg == "" {
+		// database/sql finishes a cancelled transaction in its own goroutine: let
+		// it settle before looking for leaks (a real leak never settles)
+		waitUntil(func() bool { return atomic.LoadInt32(&env.Rec.OpenTx) == 0 && env.SQL.Stats().InUse == 0 })
+	}
 	env.Rec.Fault = nil
 	ctl.Fail = nil
 	if o.err != nil {
@@ -336,17 +419,28 @@ type baseline struct {
 	keys     []string // in order of the fault-free run
 	upfront  []string // sorted keys (only for unordered operations)
 	complete string   // dump after the fault-free run
+	// reference: complete state of the same operation without prelude ("" = same)
+	reference string
+}
+
+func (b *baseline) refComplete() string {
+	if b.reference != "" {
+		return b.reference
+	}
+	return b.complete
 }
 
 type counters struct {
 	evaluations, faultExecs, lateFaults, drvFaults, hookFaults, twoFaults int64
 	opsNge4, ops, drvPoints, hookPoints                                  int64
 	unfired                                                              int64
+	cancelExecs, cancelHook, cancelLastHookJudged, notJudged, preludeJobs int64
 }
 
 type perOp struct {
 	op, dialect       string
 	n, h, bound       int
+	capped            bool
 	execs, late, viol int64
 }
 
@@ -362,7 +456,10 @@ type harness struct {
 }
 
 func tagsOf(b *baseline, o *obs, aspect string) []string {
-	tags := []string{"op:" + b.op.Name, "kind:" + b.op.Kind, "dialect:" + b.dialect, "aspect:" + aspect}
+	tags := []string{"op:" + b.op.Name, "kind:" + b.op.Kind, "config:" + b.dialect, "aspect:" + aspect}
+	if o.firedCancel > 0 {
+		tags = append(tags, "fault-kind:context-cancelled")
+	}
 	for _, t := range b.op.Tags {
 		if t == opcat.TagSaveAbsent || t == opcat.TagSaveAbsentHooks {
 			// the finding is about rows committed by the first implicit transaction
@@ -413,12 +510,25 @@ func verdicts(b *baseline, o *obs) []finding {
 	if o.leaks != "" {
 		out = append(out, finding{"leak", "transaction or connection left open after a failed write\n" + o.leaks})
 	}
+	if o.notJudged {
+		return out
+	}
+	onlyCancel := o.firedCancel > 0 && o.firedDrv == 0 && o.firedHook == 0
 	if o.err == nil {
+		if onlyCancel {
+			// a cancellation may come too late to matter: success is acceptable iff
+			// the complete result is there
+			if o.dump != b.refComplete() {
+				out = append(out, finding{"success-not-persisted", "the operation reported success (Error nil) after its context was cancelled, but its complete result is not in the database\n" + dumpDiff(b.refComplete(), o.dump)})
+			}
+			return out
+		}
 		out = append(out, finding{"error-nil", "failure swallowed: result Error is nil although a fault was injected"})
 	} else {
 		okDrv := o.firedDrv > 0 && errors.Is(o.err, recsqlite.ErrInjected)
 		okHook := o.firedHook > 0 && errors.Is(o.err, opcat.ErrHook)
-		if !okDrv && !okHook {
+		okCancel := o.firedCancel > 0 && (errors.Is(o.err, context.Canceled) || errors.Is(o.err, sql.ErrTxDone) || strings.Contains(o.errStr, context.Canceled.Error()) || strings.Contains(o.errStr, sql.ErrTxDone.Error()))
+		if !okDrv && !okHook && !okCancel {
 			out = append(out, finding{"error-identity", "the returned error does not wrap the injected failure\nerr=" + o.errStr})
 		}
 	}
@@ -454,6 +564,9 @@ func (hs *harness) baselineOf(op opcat.Op, dialect string) *baseline {
 	b.o = execute(op, dialect, mc.NewExec(nil), nil)
 	b.keys = b.o.keys()
 	b.complete = b.o.dump
+	if i := strings.Index(dialect, "|pre="); i >= 0 {
+		b.reference = execute(op, dialect[:i], mc.NewExec(nil), nil).dump
+	}
 	if op.Unordered {
 		b.upfront = append([]string(nil), b.keys...)
 		sort.Strings(b.upfront)
@@ -470,6 +583,10 @@ func (hs *harness) checkBaseline(b *baseline) bool {
 		for _, f := range fs {
 			hs.run.Violation(tagsOf(b, b.o, f.aspect), f.msg+"\n"+describe(b, c, b.o), c)
 		}
+		return false
+	}
+	if b.reference != "" && b.complete != b.reference {
+		hs.run.Violation(tagsOf(b, b.o, "fault-free"), "a harmless derivation from the shared handle before the operation changed the operation's fault-free result\n"+dumpDiff(b.reference, b.complete)+"\n"+describe(b, c, b.o), c)
 		return false
 	}
 	got := rowCounts(b.o.dump)
@@ -541,6 +658,18 @@ func (hs *harness) explore(b *baseline, bound int, deadline time.Time) {
 			// earlier); the execution is still judged by what fired.
 			atomic.AddInt64(&hs.st.unfired, 1)
 		}
+		if o.notJudged {
+			atomic.AddInt64(&hs.st.notJudged, 1)
+		}
+		if o.firedCancel > 0 {
+			atomic.AddInt64(&hs.st.cancelExecs, 1)
+			if strings.HasPrefix(o.fired[0], "CANCEL@hook") && !o.notJudged {
+				atomic.AddInt64(&hs.st.cancelHook, 1)
+				if o.lateFault {
+					atomic.AddInt64(&hs.st.cancelLastHookJudged, 1)
+				}
+			}
+		}
 		if len(o.fired) > 0 {
 			atomic.AddInt64(&hs.st.faultExecs, 1)
 			atomic.AddInt64(&hs.st.drvFaults, int64(o.firedDrv))
@@ -569,8 +698,10 @@ func (hs *harness) explore(b *baseline, bound int, deadline time.Time) {
 		}
 		// determinism of the failing execution before it is reported
 		fpOf := func(o *obs) string {
-			if b.upfront != nil {
-				// which of the chosen calls is reached first depends on map order
+			if b.upfront != nil || o.firedCancel > 0 {
+				// which of the chosen calls is reached first depends on map order;
+				// after a cancellation gorm's own rollback races with database/sql's
+				// (same state, possibly a different error text)
 				return kinds(verdicts(b, o))
 			}
 			return o.fingerprint()
@@ -601,7 +732,7 @@ func (hs *harness) explore(b *baseline, bound int, deadline time.Time) {
 		done = e.CompletedBound
 	}
 	hs.mu.Lock()
-	hs.perOp = append(hs.perOp, perOp{op: b.op.Name, dialect: b.dialect, n: nDrv, h: nHook, execs: opExecs, late: opLate, viol: opViol, bound: done})
+	hs.perOp = append(hs.perOp, perOp{op: b.op.Name, dialect: b.dialect, n: nDrv, h: nHook, execs: opExecs, late: opLate, viol: opViol, bound: done, capped: e.Capped})
 	hs.mu.Unlock()
 }
 
@@ -673,6 +804,7 @@ func main() {
 	type job struct {
 		op      opcat.Op
 		dialect string
+		bound   int
 	}
 	var jobs []job
 	for _, dl := range dialects {
@@ -680,7 +812,33 @@ func main() {
 			if only != "" && op.Name != only {
 				continue
 			}
-			jobs = append(jobs, job{op, dl})
+			jb := bound
+			if jb > 2 && dl != "returning" {
+				jb = 2 // the third fault level only on the main dialector (budget)
+			}
+			jobs = append(jobs, job{op, dl, jb})
+		}
+	}
+	// histories on the shared handle before the operation (bound 1): quick a
+	// representative subset of operations, thorough every operation
+	preOps := map[string]bool{}
+	for _, n := range []string{"create-has-many", "create-full-graph", "batches-3x2-graph", "save-existing-with-associations",
+		"updates-model-with-associations", "update-single-column", "delete-select-pets", "save-new-graph"} {
+		if _, ok := opcat.ByName(n); !ok {
+			run.HarnessError("prelude subset names an unknown operation %s", n)
+		}
+		preOps[n] = true
+	}
+	for _, op := range ops {
+		if only != "" && op.Name != only {
+			continue
+		}
+		if args.Tier != "thorough" && !preOps[op.Name] {
+			continue
+		}
+		for _, p := range preludes {
+			jobs = append(jobs, job{op, "returning|pre=" + p.name, 1})
+			hs.st.preludeJobs++
 		}
 	}
 	if list {
@@ -717,7 +875,7 @@ func main() {
 				if !hs.checkBaseline(b) {
 					continue
 				}
-				hs.explore(b, bound, deadline)
+				hs.explore(b, j.bound, deadline)
 			}
 		}()
 	}
@@ -737,7 +895,7 @@ func main() {
 	exhaustive := atomic.LoadInt32(&hs.capped) == 0
 	completed := bound
 	for _, p := range hs.perOp {
-		if p.bound < completed {
+		if p.capped && p.bound < completed {
 			completed = p.bound
 		}
 	}
@@ -749,6 +907,15 @@ func main() {
 		if st.lateFaults < 500 {
 			run.HarnessError("vacuous: only %d faults landed after a successful write", st.lateFaults)
 		}
+		if st.cancelHook < 200 || st.cancelLastHookJudged < 100 {
+			run.HarnessError("vacuous: only %d judged cancellations inside hooks (%d after a successful write)", st.cancelHook, st.cancelLastHookJudged)
+		}
+		if st.notJudged*10 > st.cancelExecs {
+			run.HarnessError("%d of %d cancellation executions could not be judged (database/sql did not finish the transaction within the bounded wait)", st.notJudged, st.cancelExecs)
+		}
+		if st.preludeJobs < 50 {
+			run.HarnessError("vacuous: only %d (operation, prelude) pairs", st.preludeJobs)
+		}
 		if st.hookFaults < 200 {
 			run.HarnessError("vacuous: only %d hook failures injected", st.hookFaults)
 		}
@@ -757,15 +924,17 @@ func main() {
 		}
 	}
 	run.Assume("SQLite only (RETURNING dialector and the LastInsertId dialector of verif/h); default settings (SkipDefaultTransaction off, no PrepareStmt)")
+	run.Assume("cancellation is asynchronous in database/sql: after cancelling inside a hook the harness polls (bounded) until the open driver transaction is gone; executions where that does not happen are counted as not judged, never as violations")
 	run.Assume("a failing driver call returns an error instead of executing; a failing COMMIT has rolled the transaction back; ROLLBACK / ROLLBACK TO SAVEPOINT never fail")
 	run.Assume("association-mode calls (Append/Replace/Delete/Clear) are outside the write set of the property; operations whose nested statements are issued in Go map order (Select(clause.Associations).Delete) get their faults chosen up-front by call content, so faults on calls that only appear after another fault are not enumerated for those two operations")
 	run.Finish(map[string]interface{}{
 		"evaluations":         st.evaluations,
 		"distinct_nontrivial": hs.distinct.Len(),
-		"rule":                fmt.Sprintf("for each of %d write operations x %d configurations (%s): every execution with <= %d injected faults, a fault point being every driver call (BEGIN, SAVEPOINT, INSERT/UPDATE/DELETE/SELECT, COMMIT; never ROLLBACK) and every hook invocation of the operation, enumerated by the E1 choice-tree explorer on a fresh database per execution; non-trivial = distinct (operation, dialector, fault list) executions in which the first fault fired after at least one INSERT/UPDATE/DELETE of the operation had succeeded (only those can reveal partial application)", len(ops), len(dialects), strings.Join(dialects, ", "), bound),
+		"rule":                fmt.Sprintf("for each of %d write operations x %d configurations (%s): every execution with <= %d injected faults, a fault point being every driver call (BEGIN, SAVEPOINT, INSERT/UPDATE/DELETE/SELECT, COMMIT; never ROLLBACK) and every hook invocation of the operation, and a fault being either 'the call fails / the hook returns an error' or 'the operation's context is cancelled at this point' (inside a hook: the hook succeeds and the harness waits until database/sql has rolled the transaction back; at a driver call: the call is refused with context.Canceled); plus, for a subset of operations (thorough: all), the same single-fault enumeration after each of 13 harmless derivations from / uses of the shared handle (ToSQL, Session{SkipDefaultTransaction/DryRun/PrepareStmt/...}, WithContext, Debug, Begin+Rollback, failing Transaction block); enumerated by the E1 choice-tree explorer on a fresh database per execution; non-trivial = distinct (operation, dialector, fault list) executions in which the first fault fired after at least one INSERT/UPDATE/DELETE of the operation had succeeded (only those can reveal partial application)", len(ops), len(dialects), strings.Join(dialects, ", "), bound),
 		"samples":             hs.samples.List(),
 		"exhaustive":          exhaustive,
 		"bound_requested":     bound,
+		"bound_note":          "thorough: 3 faults on the RETURNING dialector, 2 on the LastInsertId and PrepareStmt configurations, 1 after each prelude; quick: 1 everywhere",
 		"bound_completed":     completed,
 		"operations":          len(ops),
 		"operation_dialect_pairs_explored":      st.ops,
@@ -778,6 +947,12 @@ func main() {
 		"hook_faults_fired":                     st.hookFaults,
 		"faults_after_successful_write":         st.lateFaults,
 		"upfront_choices_never_reached":         st.unfired,
+		"executions_with_context_cancelled":     st.cancelExecs,
+		"cancellations_inside_hooks_judged":     st.cancelHook,
+		"cancellations_inside_hooks_after_successful_write": st.cancelLastHookJudged,
+		"cancellation_executions_not_judged":    st.notJudged,
+		"operation_prelude_pairs":               st.preludeJobs,
+		"preludes":                              len(preludes),
 		"distinct_outcomes":                     hs.outcomes.Len(),
 		"per_operation":                         strings.Join(perOpLines, "; "),
 	})
